@@ -56,7 +56,9 @@ func c18Gen(tier string, seed int64) []core.Case {
 	n := tierN(tier, 5, 40)
 	for i := 0; i < n; i++ {
 		id := fmt.Sprintf("derive/batch%d", i)
-		cs = append(cs, core.Case{ID: id, Class: id, Kind: "derive", Cost: 2, P: core.P{"i": i, "n": tierN(tier, 100, 500)}})
+		// the reference arithmetic is big.Int based (milliseconds per point multiplication, up to 256 of them to find a
+		// short-X parent): the allowance follows the CPU cost of the tier
+		cs = append(cs, core.Case{ID: id, Class: id, Kind: "derive", Cost: float64(tierN(tier, 2, 25)), P: core.P{"i": i, "n": tierN(tier, 100, 300)}})
 	}
 	cs = append(cs, core.Case{ID: "vectors", Class: "vectors", Kind: "vectors", Cost: 1})
 	cs = append(cs, core.Case{ID: "refusals", Class: "refusals", Kind: "refusals", Cost: 1})
